@@ -17,12 +17,13 @@
    is monotone in every radius (Monotone), extruded shapes do not depend on the extrusion coordinate
    (Extruded), boundary centres are never marked for ellipsoids/cylinders (BoundaryExcluded).
 
-   Variant selects the rule: "strict" is the rule, "nonstrict" (`<=`) and "corner" (cell corner sampled
-   instead of the cell centre) are the negative instances.                                             *)
+   Variant selects the rule: "strict" is the rule, "nonstrict" (`<=`), "corner" (cell corner sampled
+   instead of the cell centre) and "z_from_y" (an omitted z radius of an ellipsoid falls back to the y radius
+   instead of the default radius) are the negative instances.                                             *)
 EXTENDS ShapesDefs, TLC
 
 CONSTANTS Size,      \* "q" | "t" : bounds of the enumeration
-          Variant    \* "strict" | "nonstrict" | "corner"
+          Variant    \* "strict" | "nonstrict" | "corner" | "z_from_y"
 
 \* ---------- bounds ----------
 Seqs(S, n) == [1..n -> S]
@@ -32,7 +33,9 @@ WY == IF Size = "t" THEN { << 1, 2, 1 >>, << 2, 1, 3 >>, << 2, 2 >> } ELSE { << 
 WZ == { << 2, 1 >> }
 \* radii in quarter units: 1, 1.25, 1.5, 2, 2.5, 3
 Radii    == IF Size = "t" THEN {4, 5, 6, 8, 10, 12} ELSE {4, 6, 8, 10}
-EllRadii == IF Size = "t" THEN {4, 5, 6, 8, 10} \X {4, 6, 8} \X {4, 8} ELSE {4, 6, 8} \X {4, 8} \X {4, 6}
+\* ellipsoids: default radius x per-axis radius given (a value different from the default) or omitted (0): all 8 subsets
+EllRad   == IF Size = "t" THEN {4, 6, 10} ELSE {4, 8}
+EllGiven == IF Size = "t" THEN {0, 5, 8} \X {0, 5, 8} \X {0, 5, 8} ELSE {0, 6} \X {0, 6} \X {0, 6}
 \* shape centre off the box middle by a quarter unit (x only); Mirror produces the negative offsets
 Offs  == {0, 1}
 
@@ -53,8 +56,10 @@ Edges(w) == [ i \in 1..(Len(w) + 1) |-> PSum(w, i - 1) ]
 FullBox(w) == << 1, Len(w) + 1 >>
 SubBoxes(w) == { b \in (1..Len(w)) \X (2..(Len(w) + 1)) : b[2] - b[1] >= 2 /\ (Len(w) # 3 \/ b = FullBox(w)) }
 
-Shape(k, q, ax, p, o) == [ kind |-> k, q |-> q, axis |-> ax, poly |-> p, off |-> << o, 0, 0 >> ]
-Shapes0 == { Shape("ell", q, 1, NoPoly, o) : q \in EllRadii, o \in Offs }
+\* q = the radii of the ANALYTIC shape; for ellipsoids they follow from (rad, opt) by the defaulting rule
+Shape(k, q, ax, p, o) == [ kind |-> k, q |-> q, axis |-> ax, poly |-> p, off |-> << o, 0, 0 >>, rad |-> q[1], opt |-> << 0, 0, 0 >> ]
+EllShape(r, g, o) == [ Shape("ell", EffRadii(r, g, "rule"), 1, NoPoly, o) EXCEPT !.rad = r, !.opt = g ]
+Shapes0 == { EllShape(r, g, o) : r \in EllRad, g \in EllGiven, o \in Offs }
       \cup { Shape("cyl", << r, r, r >>, ax, NoPoly, o) : r \in Radii, ax \in 1..3, o \in Offs }
       \cup { Shape("cyl", << 4, 6, 10 >>, ax, NoPoly, 0) : ax \in 1..3 }                        \* elliptic cross-sections
       \cup { Shape("poly", << 4, 4, 4 >>, ax, Polys[p], 0) : p \in 1..Len(Polys), ax \in 1..3 }
@@ -74,7 +79,10 @@ LocalSample(e, lo, i) == IF Variant = "corner" THEN Corner4(e, lo + i - 1) - 4 *
                          ELSE Centre4(e, lo + i - 1) - 4 * e[lo]
 LocalMid(e, lo, hi) == 2 * (e[hi] - e[lo])                      \* 0.5 * real_shape
 LocalD(EE, b, s, c) == [ a \in 1..3 |-> LocalSample(EE[a], b[a][1], c[a]) - (LocalMid(EE[a], b[a][1], b[a][2]) + s.off[a]) ]
-Raster(EE, b, s) == { c \in BoxCells(b) : IF Variant = "nonstrict" THEN Closed(s, LocalD(EE, b, s, c)) ELSE Strictly(s, LocalD(EE, b, s, c)) }
+\* the radii the code uses: Sphere.get_voxel_mask_for_shape resolves radius_x/_y/_z against radius itself
+Coded(s) == IF s.kind = "ell" THEN [ s EXCEPT !.q = EffRadii(s.rad, s.opt, Variant) ] ELSE s
+Raster(EE, b, s0) == LET s == Coded(s0) IN
+    { c \in BoxCells(b) : IF Variant = "nonstrict" THEN Closed(s, LocalD(EE, b, s, c)) ELSE Strictly(s, LocalD(EE, b, s, c)) }
 
 \* ---------- the property's words: absolute cell centre vs. analytic shape ----------
 AbsD(EE, b, s, c) == [ a \in 1..3 |-> Centre4(EE[a], b[a][1] + c[a] - 1) - (Mid4(EE[a], b[a][1], b[a][2]) + s.off[a]) ]
@@ -95,7 +103,8 @@ Growable(a) == sh.kind = "ell" \/ (sh.kind = "cyl" /\ a # sh.axis)
 Grow(a) ==
     /\ pc = "done" /\ Growable(a)
     /\ \E r \in Radii : /\ r > sh.q[a]
-                        /\ sh' = [ sh EXCEPT !.q[a] = r ]
+                        /\ sh' = IF sh.kind = "ell" THEN [ sh EXCEPT !.q[a] = r, !.opt[a] = r ]      \* the axis radius is now given explicitly
+                                  ELSE [ sh EXCEPT !.q[a] = r ]
                         /\ mask' = Raster(E, box, sh')
     /\ pc' = "grown"
     /\ UNCHANGED << E, box >>
@@ -125,6 +134,8 @@ MaskIsInclusion == pc # "new" =>
     \A c \in BoxCells(box) : LET d == AbsD(E, box, sh, c) IN
         \/ sh.kind = "poly" /\ OnBoundary(sh, d)                      \* centre exactly on a polygon edge: don't-care
         \/ (c \in mask <=> Strictly(sh, d))
+\* the analytic radii of an ellipsoid are the given per-axis radii, the default radius where omitted
+RadiiByRule == sh.kind = "ell" => sh.q = EffRadii(sh.rad, sh.opt, "rule")
 \* centres exactly on the surface of an ellipsoid / cylinder are not marked
 BoundaryExcluded == pc # "new" /\ sh.kind # "poly" => \A c \in mask : ~OnBoundary(sh, AbsD(E, box, sh, c))
 BoxWidths(a) == [ i \in 1..(box[a][2] - box[a][1]) |-> E[a][box[a][1] + i] - E[a][box[a][1] + i - 1] ]
